@@ -156,6 +156,22 @@ def run(chk):
                         chk.ob("O17.2", f"EsClient.{name}: argument `{short(a, 40)}` handed to the guard is re-iterable", False, c,
                                f"`{short(e, 60)}` is a single-use iterator: the first attempt consumes it and every retry sends nothing yet reports success")
 
+    # the guard is the ONLY retry layer of the store client: a call handed to it must not switch on the library's own retry / back-off (attempts and pauses would multiply)
+    LIB_RETRY = {"max_retries", "initial_backoff", "max_backoff", "retry_on_timeout", "retry_on_status"}
+    n_g = 0
+    for name, f in em.items():
+        for c in source.calls_in(f):
+            if u(c.func) == "self.guarded":
+                n_g += 1
+                on = [k.arg for k in c.keywords if k.arg in LIB_RETRY and not (isinstance(k.value, ast.Constant) and k.value.value in (0, False, None))]
+                chk.ob("O17.2", f"EsClient.{name}: no second retry layer below the guard", not on, c,
+                       "" if not on else f"{on} enables the client library's own retry: a persistent fault is attempted (1 + {on[0]}) x 11 times and the pauses no longer grow",
+                       key=f"{_M}:EsClient.{name}:nested-retry")
+
+    from rules.C07 import flush_no_fallible_gap
+
+    flush_no_fallible_gap(chk, "O17.2", met)
+
     # ---- O17.3 budget and back-off ------------------------------------------------------------------------------------------------------------------------
     chk.rule("O17.3", "counter starts at 0 and is incremented exactly once per iteration before the attempt; simulating the extracted loop/handler comparisons gives 1 + 10 attempts and "
              "exhaustion ends in a raise (never a silent loop exit); the sleep duration is exponential in the counter and every retry path sleeps it", 6,
